@@ -1258,9 +1258,12 @@ def run(ctx) -> None:
                              variants[r % 3]))
         traces = []
         for i, (NP, nobj, edges, variant) in enumerate(plan):
-            t = e2e.scenario(NP, nobj, edges, variant, ctx.seed + 1000 + 10 * i)
-            if t is not None:
-                traces.append(t)
+            # a random scenario may be no valid input (patch centres of sparse catalogs too far apart): draw another one
+            for attempt in range(6):
+                t = e2e.scenario(NP, nobj, edges, variant, ctx.seed + 1000 + 10 * i + 1000 * attempt)
+                if t is not None:
+                    traces.append(t)
+                    break
         ctx.require(len(traces) >= max(3, len(plan) - 3), "too few valid end-to-end scenarios with integer arrays for the trace validation")
         groups: dict = {}
         for t in traces:
